@@ -1,0 +1,41 @@
+//go:build !verif
+
+package skiplist
+
+import "unsafe"
+
+// Yield points used by the verification harness (build tag verif).
+// Without the tag verifYield is an empty function.
+const (
+	vpAcqLoad = iota + 1
+	vpAcqAdd
+	vpRelDec
+	vpRelClosed
+	vpRelInsert
+	vpRelTryLock
+	vpClRead
+	vpClProc
+	vpRelUnlock
+	vpRelRecheck
+	vpFlLock
+	vpFlSwap
+	vpFlTag
+	vpFlAdd
+	vpFlUnlock
+)
+
+const (
+	vpFindLevel = iota + 20
+	vpFindNext
+	vpHelpDelete
+	vpInsPublish
+	vpInsUpRead
+	vpInsUpLink
+	vpSoftMark
+	vpDelSearch
+	vpNewLevel
+	vpIterNext
+	vpIterRefresh
+)
+
+func verifYield(point int, obj unsafe.Pointer) {}
